@@ -112,6 +112,11 @@ pub fn run(prop: &str, tier: &str, seed: u64, hints: Option<&str>) {
     let mut rep = Report::new(prop);
     match prop {
         "C17" => c17(&mut rng, thorough, &hints, &mut rep),
+        "C01" => c01(&mut rng, thorough, &hints, &mut rep),
+        "C18" => c18(&mut rng, thorough, &hints, &mut rep),
+        "C10" => c10(&mut rng, thorough, &hints, &mut rep),
+        "C16" => c16(&mut rng, thorough, &hints, &mut rep),
+        "C06" => c06(&mut rng, thorough, &hints, &mut rep),
         _ => {}
     }
     rep.finish();
@@ -276,4 +281,697 @@ fn c17(rng: &mut Rng, thorough: bool, hints: &[Vec<String>], rep: &mut Report) {
     rep.count("accu", 2 * nacc);
     rep.distinct += 2 * nacc;
     let _ = guard(|| ());
+}
+
+// ------------------------------------------------------------------ C18
+fn satscale_ref(lo: i32, hi: i32, shift: u32) -> Option<i64> {
+    // exact clause only
+    let b = 1i64 << (shift - 1);
+    if (hi as i64).abs() < b {
+        Some((((hi as i128) << 32) + lo as i128).div_euclid(1i128 << shift) as i64)
+    } else {
+        None
+    }
+}
+
+fn c18_point(lo: i32, hi: i32, shift: u32, rep: &mut Report) -> Option<i32> {
+    let r = guard(|| saturating_scale(lo, hi, shift));
+    let inp = format!("saturating_scale({}, {}, {})", lo, hi, shift);
+    match r {
+        None => {
+            rep.violation("satscale-panic", "never panics for a documented shift", &inp, "a value", "PANIC");
+            None
+        }
+        Some(v) => {
+            if let Some(e) = satscale_ref(lo, hi, shift) {
+                if v as i64 != e {
+                    rep.violation("satscale-exact", "exact inside range: floor((hi*2^32+lo)/2^shift)", &inp, &e.to_string(), &v.to_string());
+                }
+            } else {
+                // saturated: independent of lo, sign of hi
+                let v0 = guard(|| saturating_scale(0, hi, shift));
+                if v0 != Some(v) {
+                    rep.violation("satscale-const", "saturation value independent of lo", &inp, &format!("{:?}", v0), &v.to_string());
+                }
+                let sign_ok = if hi < 0 { v < 0 } else { v > 0 };
+                if !sign_ok {
+                    let class = if shift == 32 && hi == i32::MIN && v == 0 { "satscale-shift32-min-zero" } else { "satscale-sign" };
+                    rep.violation(class, "saturation value carries the sign of hi", &inp, "same sign as hi", &v.to_string());
+                }
+            }
+            Some(v)
+        }
+    }
+}
+
+fn c18_mono(lo: i32, hi: i32, lo2: i32, hi2: i32, shift: u32, rep: &mut Report) {
+    // (hi, lo) <= (hi2, lo2) lexicographically
+    let a = c18_point(lo, hi, shift, rep);
+    let b = c18_point(lo2, hi2, shift, rep);
+    if let (Some(a), Some(b)) = (a, b) {
+        if a > b {
+            let bnd = 1i64 << (shift - 1);
+            let sat_a = (hi as i64).abs() >= bnd;
+            let sat_b = (hi2 as i64).abs() >= bnd;
+            let class = if shift >= 17 && (sat_a != sat_b) { "satscale-nonmonotone-clip-boundary-shift>=17" } else { "satscale-monotone" };
+            rep.violation(class, "non-decreasing in (hi, lo) lexicographically",
+                &format!("saturating_scale({}, {}, {}) then ({}, {}, {})", lo, hi, shift, lo2, hi2, shift),
+                "first <= second", &format!("{} > {}", a, b));
+        }
+    }
+}
+
+fn c18(rng: &mut Rng, thorough: bool, hints: &[Vec<String>], rep: &mut Report) {
+    let reps = if thorough { 4000 } else { 300 };
+    for shift in 1..=32u32 {
+        let b = 1i64 << (shift - 1);
+        let mut his: Vec<i32> = vec![i32::MIN, i32::MIN + 1, -1, 0, 1, i32::MAX - 1, i32::MAX];
+        for d in -3..=3i64 {
+            for s in [b + d, -b + d] {
+                if s >= i32::MIN as i64 && s <= i32::MAX as i64 {
+                    his.push(s as i32);
+                }
+            }
+        }
+        for _ in 0..reps {
+            his.push(rng.i32());
+            his.push(rng.range(-b.min(1 << 31), b.min((1 << 31) - 1)) as i32);
+        }
+        let n0 = rep.evaluations;
+        for &hi in &his {
+            for lo in [i32::MIN, i32::MIN + 1, -1, 0, 1, i32::MAX - 1, i32::MAX, rng.i32(), rng.next() as i32] {
+                c18_point(lo, hi, shift, rep);
+                rep.count("exact/saturation", 1);
+                // adjacent pairs
+                if lo < i32::MAX {
+                    c18_mono(lo, hi, lo + 1, hi, shift, rep);
+                    rep.count("monotone-adjacent-lo", 1);
+                }
+            }
+            if hi < i32::MAX {
+                c18_mono(i32::MAX, hi, i32::MIN, hi + 1, shift, rep);
+                let (l1, l2) = (rng.i32(), rng.i32());
+                c18_mono(l1, hi, l2, hi + 1, shift, rep);
+                rep.count("monotone-adjacent-hi", 2);
+            }
+        }
+        rep.distinct += rep.evaluations - n0;
+    }
+    rep.sample(format!("saturating_scale(0x12345600, 0x7f, 8) = {:#x}", saturating_scale(0x1234_5600, 0x7f, 8)));
+    for h in hints {
+        if h[0] == "satscale" && h.len() == 4 {
+            let (lo, hi, sh): (i64, i64, i64) = (h[1].parse().unwrap_or(0), h[2].parse().unwrap_or(0), h[3].parse().unwrap_or(1));
+            if (1..=32).contains(&sh) {
+                c18_point(lo as i32, hi as i32, sh as u32, rep);
+                if (hi as i32) < i32::MAX {
+                    c18_mono(i32::MAX, hi as i32, i32::MIN, hi as i32 + 1, sh as u32, rep);
+                }
+                if (hi as i32) > i32::MIN {
+                    c18_mono(i32::MAX, hi as i32 - 1, i32::MIN, hi as i32, sh as u32, rep);
+                }
+            }
+        }
+    }
+}
+
+// ------------------------------------------------------------------ C10
+fn lp1_step(s: i64, x: i32, k: i32, rep: &mut Report) -> Option<(i64, i32)> {
+    let mut lp = Lowpass::<1>::verif_from_raw([s]);
+    let prev = idsp::Filter::get(&lp);
+    let r = guard(|| {
+        let y = idsp::Filter::update(&mut lp, x, &[k]);
+        (lp.verif_raw()[0], y, idsp::Filter::get(&lp))
+    });
+    let inp = format!("Lowpass1{{state:{}}}.update({}, [{}])", s, x, k);
+    match r {
+        None => {
+            rep.violation("lp1-panic", "never overflows", &inp, "a value", "PANIC");
+            None
+        }
+        Some((s2, y, g)) => {
+            let (lo, hi) = (prev.min(x), prev.max(x));
+            if !(lo <= y && y <= hi && lo <= g && g <= hi) {
+                rep.violation("lp1-between", "output between previous output and input", &inp, &format!("in [{}, {}]", lo, hi), &format!("y={} get={}", y, g));
+            }
+            Some((s2, y))
+        }
+    }
+}
+
+fn lp2_ref(s0: i128, s1: i128, x: i32, k0: i32, k1: i32) -> (i128, i128, i128) {
+    // unbounded-integer reference of the same recurrence (no wrap, saturating input difference as in the code)
+    let get = s0 >> 32;
+    let diff = (x as i128 - get).clamp(i32::MIN as i128, i32::MAX as i128);
+    let mut d = diff * k0 as i128;
+    d += (s1 >> 32) * k1 as i128;
+    let s1a = s1 + d;
+    let s0a = s0 + s1a;
+    let y = s0a >> 32;
+    (s0a + s1a, s1a + d, y)
+}
+
+fn c10(rng: &mut Rng, thorough: bool, hints: &[Vec<String>], rep: &mut Report) {
+    // ---- first order: betweenness from arbitrary / reachable states
+    let n = if thorough { 4_000_000 } else { 400_000 };
+    let mut s = 0i64;
+    for i in 0..n {
+        if i % 64 == 0 {
+            s = match rng.below(3) {
+                0 => (rng.i32() as i64) << 32, // set()
+                1 => rng.i64(),
+                _ => 0,
+            };
+        }
+        let k = match rng.below(4) {
+            0 => rng.range(1, i32::MAX as i64) as i32,
+            1 => 1 << rng.below(31),
+            2 => i32::MAX,
+            _ => ((1i64 << rng.below(31)) + rng.range(-1, 1)).clamp(1, i32::MAX as i64) as i32,
+        };
+        let x = if i % 3 == 0 { if rng.chance(1, 2) { i32::MIN } else { i32::MAX } } else { rng.i32() };
+        if let Some((s2, _)) = lp1_step(s, x, k, rep) {
+            s = s2;
+        }
+    }
+    rep.count("lp1-between", n);
+    rep.distinct += n;
+    for h in hints {
+        if h[0] == "lp1" && h.len() == 4 {
+            let (s, x, k): (i64, i64, i64) = (h[1].parse().unwrap_or(0), h[2].parse().unwrap_or(0), h[3].parse().unwrap_or(1));
+            if k >= 1 {
+                lp1_step(s, x as i32, k as i32, rep);
+            }
+        }
+    }
+    // ---- first order: a constant input is reached exactly and held
+    let ndc = if thorough { 60 } else { 12 };
+    for _ in 0..ndc {
+        let k = rng.range(1 << 16, i32::MAX as i64) as i32;
+        let x = rng.i32();
+        let mut lp = Lowpass::<1>::default();
+        idsp::Filter::set(&mut lp, rng.i32());
+        let mut steps = 0u64;
+        let cap = 40 * (1u64 << 32) / k as u64 + 1000;
+        let mut ok = true;
+        let r = guard(|| {
+            let mut last = idsp::Filter::get(&lp);
+            while idsp::Filter::update(&mut lp, x, &[k]) != x && steps < cap {
+                steps += 1;
+                let g = idsp::Filter::get(&lp);
+                // monotone approach
+                if (x as i64 - g as i64).abs() > (x as i64 - last as i64).abs() {
+                    ok = false;
+                }
+                last = g;
+            }
+            for _ in 0..100 {
+                if idsp::Filter::update(&mut lp, x, &[k]) != x {
+                    ok = false;
+                }
+            }
+        });
+        if r.is_none() || !ok || steps >= cap {
+            rep.violation("lp1-dc", "constant input reached exactly and held", &format!("Lowpass1 k={} x={}", k, x), "reaches x and stays", &format!("steps={} ok={} panicked={}", steps, ok, r.is_none()));
+        }
+        rep.count("lp1-dc-steps", steps + 100);
+        rep.distinct += 1;
+    }
+    // ---- second order: Butterworth settle / overshoot for levels within +-2^30
+    let n2 = if thorough { 400 } else { 40 };
+    for i in 0..n2 {
+        let k = if i % 5 == 0 { 1i64 << (16 + rng.below(15)) } else { rng.range(1 << 16, 1518500249) };
+        let kf = k as f64;
+        let (k0, k1) = ((kf * kf / 4294967296.0) as i32, (-kf * std::f64::consts::SQRT_2) as i32);
+        let a = rng.range(-(1 << 30), 1 << 30) as i32;
+        let b = match i % 4 {
+            0 => 1 << 30,
+            1 => -(1 << 30),
+            _ => rng.range(-(1 << 30), 1 << 30) as i32,
+        };
+        let mut lp = Lowpass::<2>::default();
+        let tol = 4.0 * 4294967296.0 / kf + 4.0;
+        let nset = (40.0 * 4294967296.0 / kf) as u64 + 100;
+        let res = guard(|| {
+            // settle on level a first
+            for _ in 0..nset {
+                idsp::Filter::update(&mut lp, a, &[k0, k1]);
+            }
+            let ya = idsp::Filter::get(&lp);
+            let mut peak = 0f64;
+            let step = b as f64 - a as f64;
+            let mut y = ya;
+            for _ in 0..nset {
+                y = idsp::Filter::update(&mut lp, b, &[k0, k1]);
+                if step != 0.0 {
+                    peak = peak.max((y as f64 - b as f64) / step);
+                }
+            }
+            (ya, y, peak)
+        });
+        let inp = format!("Lowpass2 k={} (k0={}, k1={}) level {} -> {}", k, k0, k1, a, b);
+        match res {
+            None => rep.violation("lp2-panic-within-2^30", "no overflow for levels within +-2^30", &inp, "no panic", "PANIC"),
+            Some((ya, yb, peak)) => {
+                rep.stat_max("lp2_settle_ratio", ((ya as f64 - a as f64).abs() / tol).max((yb as f64 - b as f64).abs() / tol));
+                rep.stat_max("lp2_overshoot", peak);
+                if (ya as f64 - a as f64).abs() > tol || (yb as f64 - b as f64).abs() > tol {
+                    rep.violation("lp2-settle", "settles within 4*2^32/k + 4 LSB", &inp, &format!("within {}", tol), &format!("ya={} yb={}", ya, yb));
+                }
+                if peak > 0.05 + tol / (b as f64 - a as f64).abs().max(1.0) {
+                    rep.violation("lp2-overshoot", "at most 5% overshoot", &inp, "<= 0.05", &format!("{}", peak));
+                }
+            }
+        }
+        rep.count("lp2-settle-steps", 2 * nset);
+        rep.distinct += 1;
+    }
+    // ---- second order: every step size incl. full scale: never wraps (compare against the unbounded reference)
+    let n3 = if thorough { 3000 } else { 300 };
+    for i in 0..n3 {
+        let k = rng.range(1 << 16, 1518500249);
+        let kf = k as f64;
+        let (k0, k1) = ((kf * kf / 4294967296.0) as i32, (-kf * std::f64::consts::SQRT_2) as i32);
+        let from = match i % 4 { 0 => 0, 1 => i32::MIN, 2 => i32::MAX, _ => rng.i32() };
+        let to = match (i / 4) % 4 { 0 => i32::MAX, 1 => i32::MIN, 2 => rng.i32(), _ => from.saturating_neg() };
+        let mut lp = Lowpass::<2>::default();
+        idsp::Filter::set(&mut lp, from);
+        let (mut r0, mut r1) = ((from as i128) << 32, 0i128);
+        let nst = ((12.0 * 4294967296.0 / kf) as usize + 50).min(200_000);
+        let mut bad: Option<String> = None;
+        for j in 0..nst {
+            let x = to;
+            let (n0, n1, ry) = lp2_ref(r0, r1, x, k0, k1);
+            r0 = n0;
+            r1 = n1;
+            let got = guard(|| idsp::Filter::update(&mut lp, x, &[k0, k1]));
+            let want = ry.clamp(i32::MIN as i128, i32::MAX as i128);
+            match got {
+                None => {
+                    bad = Some(format!("PANIC at step {}", j));
+                    break;
+                }
+                Some(y) => {
+                    if ry < i32::MIN as i128 || ry > i32::MAX as i128 || y as i128 != ry {
+                        // the true (unbounded) output left the i32 range or the state wrapped
+                        if y as i128 != want {
+                            bad = Some(format!("step {}: y={} but unbounded recurrence gives {} (saturated {})", j, y, ry, want));
+                            break;
+                        }
+                    }
+                }
+            }
+        }
+        rep.count("lp2-fullscale-steps", nst as u64);
+        rep.distinct += 1;
+        if let Some(b) = bad {
+            // known class: the target level is so close to full scale that the (<= 5%) overshoot leaves the i32 range
+            let class = if (to as i64).abs() as f64 >= 0.95 * 2147483648.0 || (from as i64 - to as i64).abs() as f64 > 2147483648.0 * 1.0 {
+                "lp2-overflow-overshoot-beyond-i32"
+            } else {
+                "lp2-wrap"
+            };
+            rep.violation(class, "never wraps around for any step size; saturates toward the i32 range",
+                &format!("Lowpass2 k={} (k0={}, k1={}) set({}) then constant {}", k, k0, k1, from, to), "saturated output", &b);
+        }
+    }
+    rep.sample("Lowpass2 k=2^24 Butterworth: set(0) then constant i32::MAX".into());
+}
+
+// ------------------------------------------------------------------ C16
+fn dsm_ref(a: &mut [u64], mem: &mut [i64], x: u32) -> i64 {
+    // true MASH-1^K value in unbounded integers
+    let k = a.len();
+    let mut carries = vec![0i64; k];
+    let mut inp = x as u64;
+    for j in 0..k {
+        let s = a[j] + inp;
+        carries[j] = (s >> 32) as i64;
+        a[j] = s & 0xffff_ffff;
+        inp = a[j];
+    }
+    if k == 0 {
+        return 0;
+    }
+    let mut y = carries[k - 1];
+    for i in 0..k - 1 {
+        let c = carries[k - 2 - i];
+        let ynew = c + y - mem[i];
+        mem[i] = y;
+        y = ynew;
+    }
+    y
+}
+
+fn dsm_seq<const K: usize>(xs: &[u32], rep: &mut Report, label: &str) {
+    let mut d = Dsm::<K>::default();
+    let mut ra = vec![0u64; K];
+    let mut rm = vec![0i64; K];
+    let (mut sy, mut sx) = (0i128, 0i128);
+    let bound = if K == 0 { 0i128 } else { 1i128 << (K - 1) };
+    for (n, &x) in xs.iter().enumerate() {
+        let want = dsm_ref(&mut ra, &mut rm, x);
+        let got = guard(|| d.update(x));
+        let inp = format!("Dsm::<{}> from default, inputs {:?}{}", K, &xs[..(n + 1).min(12)], if n + 1 > 12 { format!(" ... ({} total, {})", n + 1, label) } else { String::new() });
+        let class_extra = if K == 0 { "dsm-k0-panic" } else if K == 8 && (want == 128) { "dsm-k8-plus128" } else { "dsm" };
+        match got {
+            None => {
+                rep.violation(if class_extra == "dsm" { "dsm-panic" } else { class_extra }, "never panics; output is the true MASH value", &inp, &want.to_string(), "PANIC");
+                return;
+            }
+            Some(y) => {
+                if y as i64 != want {
+                    rep.violation(if class_extra == "dsm" { "dsm-value" } else { class_extra }, "output is the true MASH-1^K value, never a wrapped one", &inp, &want.to_string(), &y.to_string());
+                    return;
+                }
+                let lo = if K == 0 { 0 } else { 1 - (1i64 << (K - 1)) };
+                let hi = if K == 0 { 0 } else { 1i64 << (K - 1) };
+                if (y as i64) < lo || (y as i64) > hi {
+                    rep.violation("dsm-range", "output within 1-2^(K-1) ..= 2^(K-1)", &inp, &format!("[{}, {}]", lo, hi), &y.to_string());
+                    return;
+                }
+                sy += y as i128;
+                sx += x as i128;
+                if K >= 1 {
+                    let err = (sy << 32) - sx;
+                    if err.abs() > bound << 32 {
+                        rep.violation("dsm-error", "accumulated error within +-2^(K-1)*2^32", &inp, &format!("|err| <= {}", bound << 32), &err.to_string());
+                        return;
+                    }
+                }
+            }
+        }
+    }
+}
+
+fn c16(rng: &mut Rng, thorough: bool, _hints: &[Vec<String>], rep: &mut Report) {
+    // known-finding witnesses first
+    dsm_seq::<0>(&[5], rep, "K=0");
+    dsm_seq::<8>(&[0x00800000, 0xfb800000, 0x12800000, 0xd1800000, 0x51800000, 0x92800000, 0x7b800000, 0x80800000, 0x80000000], rep, "K=8 witness");
+    rep.count("witness", 10);
+    let nseq = if thorough { 40000 } else { 4000 };
+    for i in 0..nseq {
+        let len = 1 + rng.below(if i % 10 == 0 { 3000 } else { 200 }) as usize;
+        let style = rng.below(5);
+        let x0 = rng.u32();
+        let bits = 1 + rng.below(4) as u32;
+        let xs: Vec<u32> = (0..len)
+            .map(|_| match style {
+                0 => x0,
+                1 => (rng.below(1 << bits) as u32) << (32 - bits),
+                2 => [0u32, 0x8000_0000, 0xffff_ffff, 0x7fff_ffff, 1, 0x8000_0001][rng.below(6) as usize],
+                3 => x0.wrapping_add(rng.range(-2, 2) as u32),
+                _ => rng.u32(),
+            })
+            .collect();
+        match 1 + rng.below(8) {
+            1 => dsm_seq::<1>(&xs, rep, "random"),
+            2 => dsm_seq::<2>(&xs, rep, "random"),
+            3 => dsm_seq::<3>(&xs, rep, "random"),
+            4 => dsm_seq::<4>(&xs, rep, "random"),
+            5 => dsm_seq::<5>(&xs, rep, "random"),
+            6 => dsm_seq::<6>(&xs, rep, "random"),
+            7 => dsm_seq::<7>(&xs, rep, "random"),
+            _ => dsm_seq::<8>(&xs, rep, "random"),
+        }
+        rep.count("dsm-sequences", len as u64);
+        rep.distinct += 1;
+        if i == 0 {
+            rep.sample(format!("Dsm inputs {:?}", &xs[..xs.len().min(6)]));
+        }
+    }
+    // exhaustive short sequences on a 2-bit lattice for K = 1..=8 (all 4^6 sequences)
+    let depth = if thorough { 8 } else { 6 };
+    let total = 4usize.pow(depth);
+    for code in 0..total {
+        let xs: Vec<u32> = (0..depth).map(|j| (((code >> (2 * j)) & 3) as u32) << 30).collect();
+        dsm_seq::<1>(&xs, rep, "lattice");
+        dsm_seq::<2>(&xs, rep, "lattice");
+        dsm_seq::<3>(&xs, rep, "lattice");
+        dsm_seq::<4>(&xs, rep, "lattice");
+        dsm_seq::<5>(&xs, rep, "lattice");
+        dsm_seq::<6>(&xs, rep, "lattice");
+        dsm_seq::<7>(&xs, rep, "lattice");
+        dsm_seq::<8>(&xs, rep, "lattice");
+    }
+    rep.count("dsm-2bit-lattice-exhaustive", (total * 8 * depth as usize) as u64);
+    rep.distinct += (total * 8) as u64;
+}
+
+// ------------------------------------------------------------------ C06
+fn c06_case(rng: &mut Rng, k: i32, f0: i32, scramble: usize, rep: &mut Report) {
+    let mut p = if rng.chance(1, 2) {
+        PLL::default()
+    } else {
+        PLL::verif_from_raw(rng.i32(), rng.i32(), rng.i32(), rng.i64(), rng.i64())
+    };
+    // arbitrary prior history
+    for _ in 0..scramble {
+        let inp = if rng.chance(1, 5) { None } else { Some(rng.i32()) };
+        let kk = if rng.chance(1, 2) { rng.i32() } else { crate::gen::pll_gain(rng) };
+        if guard(|| p.update(inp, kk)).is_none() {
+            rep.violation("pll-panic", "no sequence of inputs and gains ever panics", &format!("PLL update({:?}, {})", inp, kk), "no panic", "PANIC");
+            return;
+        }
+    }
+    let start = p.verif_raw();
+    let n = 64 * ((1u64 << 32) / k as u64) + 64;
+    let mut x = rng.i32();
+    for _ in 0..n {
+        x = x.wrapping_add(f0);
+        p.update(Some(x), k);
+    }
+    let ftol = 1i64;
+    let ptol = (1i64 << 31) / k as i64 + 2;
+    let extra = 3000;
+    let mut worst_f = 0i64;
+    let mut worst_p = 0i64;
+    for j in 0..extra {
+        x = x.wrapping_add(f0);
+        p.update(Some(x), k);
+        let fe = (p.frequency().wrapping_sub(f0) as i64).abs();
+        let pe = (p.phase().wrapping_sub(x) as i64).abs();
+        worst_f = worst_f.max(fe);
+        worst_p = worst_p.max(pe);
+        if fe > ftol || pe > ptol {
+            rep.violation("pll-lock", "locked within 64*2^32/k+64 updates and stays", &format!("PLL state {:?}, k={}, f0={}, after {} + {} updates", start, k, f0, n, j), &format!("|df| <= 1, |dp| <= {}", ptol), &format!("df={} dp={}", fe, pe));
+            return;
+        }
+    }
+    rep.stat_max("pll_phase_ratio", worst_p as f64 / ptol as f64);
+    rep.stat_max("pll_freq_err", worst_f as f64);
+    rep.count("pll-lock-steps", n + extra as u64);
+    rep.distinct += 1;
+}
+
+fn c06(rng: &mut Rng, thorough: bool, hints: &[Vec<String>], rep: &mut Report) {
+    let ncase = if thorough { 300 } else { 40 };
+    let kmin_log = if thorough { 10 } else { 15 };
+    for i in 0..ncase {
+        let k: i32 = match i % 4 {
+            0 => 1 << (kmin_log + rng.below(31 - kmin_log)),
+            1 => ((1i64 << (kmin_log + rng.below(31 - kmin_log))) + rng.range(-1, 1)).clamp(1 << kmin_log, i32::MAX as i64) as i32,
+            2 => i32::MAX - rng.below(3) as i32,
+            _ => rng.range(1 << kmin_log, i32::MAX as i64) as i32,
+        };
+        let f0 = match (i / 4) % 6 {
+            0 => 0,
+            1 => i32::MIN,
+            2 => i32::MAX,
+            3 => -1,
+            4 => 1,
+            _ => rng.i32(),
+        };
+        let scramble = if i % 3 == 0 { 0 } else { rng.below(200) as usize };
+        c06_case(rng, k, f0, scramble, rep);
+    }
+    // hints: states on which model and code disagree -> run the lock experiment from there
+    for h in hints.iter().take(20) {
+        if h[0] == "pll" && h.len() == 8 {
+            let v: Vec<i64> = h[1..6].iter().map(|t| t.parse().unwrap_or(0)).collect();
+            let k: i64 = h[7].parse().unwrap_or(1 << 20);
+            let k = (k.clamp(1 << 15, i32::MAX as i64)) as i32;
+            let mut p = PLL::verif_from_raw(v[0] as i32, v[1] as i32, v[2] as i32, v[3], v[4]);
+            let f0 = rng.i32();
+            let n = 64 * ((1u64 << 32) / k as u64) + 64;
+            let mut x = v[0] as i32;
+            for _ in 0..n {
+                x = x.wrapping_add(f0);
+                p.update(Some(x), k);
+            }
+            let fe = (p.frequency().wrapping_sub(f0) as i64).abs();
+            let pe = (p.phase().wrapping_sub(x) as i64).abs();
+            if fe > 1 || pe > (1i64 << 31) / k as i64 + 2 {
+                rep.violation("pll-lock", "locked within 64*2^32/k+64 updates", &format!("PLL state {:?}, k={}, f0={}", v, k, f0), "locked", &format!("df={} dp={}", fe, pe));
+            }
+        }
+    }
+    // gap clause / no panic from arbitrary states
+    let n = if thorough { 2_000_000 } else { 200_000 };
+    for _ in 0..n {
+        let mut p = PLL::verif_from_raw(rng.i32(), rng.i32(), rng.i32(), rng.i64(), rng.i64());
+        let b = p.verif_raw();
+        let k = rng.i32();
+        if guard(|| p.update(None, k)).is_none() {
+            rep.violation("pll-panic", "never panics", &format!("PLL{:?}.update(None, {})", b, k), "no panic", "PANIC");
+            continue;
+        }
+        let a = p.verif_raw();
+        if !(a.1 == b.1.wrapping_add(b.2) && a.2 == b.2 && a.3 == b.3 && a.0 == b.0.wrapping_add(b.2) && a.4 == b.4.wrapping_add(b.3)) {
+            rep.violation("pll-gap", "missing sample advances the phase estimate by exactly the frequency estimate", &format!("PLL{:?}.update(None, {})", b, k), "y0+=f0, x+=f0, y+=f", &format!("{:?}", a));
+        }
+        let xin = rng.i32();
+        let mut q = PLL::verif_from_raw(b.0, b.1, b.2, b.3, b.4);
+        if guard(|| q.update(Some(xin), k)).is_none() {
+            rep.violation("pll-panic", "never panics", &format!("PLL{:?}.update(Some({}), {})", b, xin, k), "no panic", "PANIC");
+        }
+    }
+    rep.count("pll-gap-and-panic-single-steps", 2 * n);
+    rep.distinct += n;
+    rep.sample("PLL k=2^24 f0=0x71f63049 from default (pinned test)".into());
+}
+
+// ------------------------------------------------------------------ parallel helper
+#[derive(Default)]
+pub struct Local {
+    pub viol: Vec<(String, String, String, String, String)>,
+    pub count: u64,
+    pub maxes: BTreeMap<String, f64>,
+    pub sums: BTreeMap<String, i128>,
+}
+impl Local {
+    pub fn violation(&mut self, class: &str, clause: &str, input: String, expected: String, observed: String) {
+        if self.viol.len() < 20 {
+            self.viol.push((class.into(), clause.into(), input, expected, observed));
+        }
+    }
+    pub fn max(&mut self, k: &str, v: f64) {
+        let e = self.maxes.entry(k.into()).or_insert(f64::MIN);
+        if v > *e {
+            *e = v;
+        }
+    }
+    pub fn sum(&mut self, k: &str, v: i128) {
+        *self.sums.entry(k.into()).or_insert(0) += v;
+    }
+}
+
+pub fn par<F>(nchunks: u64, f: F, rep: &mut Report) -> BTreeMap<String, i128>
+where
+    F: Fn(u64, &mut Local) + Sync,
+{
+    let nthreads = std::thread::available_parallelism().map(|n| n.get()).unwrap_or(4).min(16) as u64;
+    let next = std::sync::atomic::AtomicU64::new(0);
+    let locals: Vec<Local> = std::thread::scope(|sc| {
+        let hs: Vec<_> = (0..nthreads)
+            .map(|_| {
+                sc.spawn(|| {
+                    let mut l = Local::default();
+                    loop {
+                        let c = next.fetch_add(1, std::sync::atomic::Ordering::Relaxed);
+                        if c >= nchunks {
+                            break;
+                        }
+                        f(c, &mut l);
+                    }
+                    l
+                })
+            })
+            .collect();
+        hs.into_iter().map(|h| h.join().unwrap_or_default()).collect()
+    });
+    let mut sums = BTreeMap::new();
+    for l in locals {
+        for (a, b, c, d, e) in l.viol {
+            rep.violation(&a, &b, &c, &d, &e);
+        }
+        rep.evaluations += l.count;
+        for (k, v) in l.maxes {
+            rep.stat_max(&k, v);
+        }
+        for (k, v) in l.sums {
+            *sums.entry(k).or_insert(0) += v;
+        }
+    }
+    sums
+}
+
+// ------------------------------------------------------------------ C01
+const COSSIN_AMPLITUDE: f64 = 2147483648.0 - 0.85 * 32768.0;
+
+fn c01_point(p: i32, l: &mut Local) {
+    let r = guard(|| (cossin(p), cossin(p.wrapping_add(1 << 30)), cossin(!p), cossin(p ^ ((1 << 30) - 1))));
+    let Some(((c, s), q, cj, mi)) = r else {
+        l.violation("cossin-panic", "no panic", format!("cossin({}) or a symmetric image", p), "a value".into(), "PANIC".into());
+        return;
+    };
+    let th = p as f64 * (std::f64::consts::PI / 2147483648.0);
+    let (ec, es) = ((c as f64 / COSSIN_AMPLITUDE - th.cos()).abs(), (s as f64 / COSSIN_AMPLITUDE - th.sin()).abs());
+    l.max("cossin_err", ec.max(es));
+    l.max("cossin_abs", (c as f64).abs().max((s as f64).abs()));
+    if ec >= 1e-5 || es >= 1e-5 {
+        l.violation("cossin-accuracy", "within 1e-5 of (cos, sin)", format!("cossin({})", p), format!("({}, {})", th.cos() * COSSIN_AMPLITUDE, th.sin() * COSSIN_AMPLITUDE), format!("({}, {})", c, s));
+    }
+    if c == i32::MIN || s == i32::MIN {
+        l.violation("cossin-range", "neither component reaches magnitude 2^31", format!("cossin({})", p), "|c|,|s| < 2^31".into(), format!("({}, {})", c, s));
+        return;
+    }
+    if q != (-s, c) {
+        l.violation("cossin-quarter", "p + 2^30 gives (-sin, cos) exactly", format!("cossin({}) vs cossin({})", p, p.wrapping_add(1 << 30)), format!("({}, {})", -s, c), format!("{:?}", q));
+    }
+    if cj != (c, -s) {
+        l.violation("cossin-conj", "complementing the phase bits conjugates exactly", format!("cossin({}) vs cossin({})", p, !p), format!("({}, {})", c, -s), format!("{:?}", cj));
+    }
+    if (mi.0 as i64).abs() != (s as i64).abs() || (mi.1 as i64).abs() != (c as i64).abs() {
+        l.violation("cossin-mirror", "mirroring inside a quadrant swaps cos and sin exactly", format!("cossin({}) vs cossin({})", p, p ^ ((1 << 30) - 1)), format!("magnitudes ({}, {})", s, c), format!("{:?}", mi));
+    }
+    l.sum("c", c as i128);
+    l.sum("s", s as i128);
+    l.count += 1;
+}
+
+fn c01(rng: &mut Rng, thorough: bool, hints: &[Vec<String>], rep: &mut Report) {
+    let salt = rng.next();
+    let sums = if thorough {
+        // all 2^32 phases
+        let s = par(1 << 12, |c, l| {
+            for i in 0..(1u64 << 20) {
+                c01_point(((c << 20) | i) as u32 as i32, l);
+            }
+        }, rep);
+        rep.distinct += 1u64 << 32;
+        rep.count("all-2^32-phases(exhaustive)", 0);
+        s
+    } else {
+        // 2^24 phases: every 256-block once, low bits pseudo-random but closed under the half turn
+        let s = par(1 << 8, |c, l| {
+            for i in 0..(1u64 << 16) {
+                let blk = (c << 16) | i;
+                let low = ((blk & 0x7f_ffff).wrapping_mul(0x9E3779B97F4A7C15).wrapping_add(salt) >> 40) & 0xff;
+                c01_point(((blk << 8) | low) as u32 as i32, l);
+            }
+        }, rep);
+        rep.distinct += 1u64 << 24;
+        rep.count("2^24-stratified-phases", 0);
+        s
+    };
+    let (sc, ss) = (*sums.get("c").unwrap_or(&0), *sums.get("s").unwrap_or(&0));
+    if sc != 0 || ss != 0 {
+        rep.violation("cossin-sum", "each output sums to exactly zero over the (half-turn closed) phase set", if thorough { "all 2^32 phases" } else { "2^24 stratified phases closed under the half turn" }, "(0, 0)", &format!("({}, {})", sc, ss));
+    }
+    let mut l = Local::default();
+    for h in hints {
+        if h[0] == "cossin" && h.len() == 2 {
+            if let Ok(p) = h[1].parse::<i64>() {
+                c01_point(p as i32, &mut l);
+                c01_point((p as i32).wrapping_add(i32::MIN), &mut l);
+            }
+        }
+    }
+    for v in [0, 1, -1, i32::MIN, i32::MAX, 1 << 29, (1 << 29) - 1, 1 << 30, -(1 << 30)] {
+        c01_point(v, &mut l);
+    }
+    for (a, b, c, d, e) in l.viol {
+        rep.violation(&a, &b, &c, &d, &e);
+    }
+    rep.sample(format!("cossin(0) = {:?}, cossin(1<<29) = {:?}", cossin(0), cossin(1 << 29)));
 }
